@@ -128,6 +128,11 @@ HEADER = ["from rt import *"]          # line 1
 SIMPLE_FORMS = ["M(%d)", "M(%d)", "_v = M(%d)", "_v: object = M(%d)", "NS.acc += [M(%d)]", "assert M(%d) is None", "_d = M(%d); del _d",
                 "global _g; M(%d)", "import os; M(%d)", "from os import path; M(%d)", "M(%d); pass", "_v = M(%d) if T else 0",
                 "M(%d) if T else 0", "_w = (_y := M(%d))", "_l = lambda: 0; M(%d)", "NS.x = M(%d)", "print(end='', *[M(%d)][:0])"]
+# statements without a marker call: only in the files that are analysed but never executed (C02-C04 decorated/async stream) -
+# a statement is a statement for the dead-code report whatever it is made of (the stub idiom `...`, a bare name, a docstring-like
+# string, a bare annotation, a number, a parenthesised expression, a type alias ...)
+NOEXEC_FORMS = ["...", "pass", "'text %d'", "_n: int", "%d", "NS", "(NS)", "NS.x", "-1", "not NS", "NS, NS", "[]", "{}", "_u = ...",
+                "yield_ = None", "lambda: %d", "NS.x: int = %d", "del NS.x", "global _g%d", "import os.path", "await_ = 0", "f'{NS}'"]
 
 
 def layout(module, plain=False, deco_rng=None):
@@ -166,8 +171,12 @@ def layout(module, plain=False, deco_rng=None):
         c = s[0]
         if c == 'simple':
             kk = len(lines) + 1
-            form = SIMPLE_FORMS[((kk * 2654435761) >> 5) % len(SIMPLE_FORMS)] if deco_rng is None else "M(%d)"
-            k = emit(form % kk, ind)
+            if deco_rng is None:
+                form = SIMPLE_FORMS[((kk * 2654435761) >> 5) % len(SIMPLE_FORMS)]
+            else:
+                pool = SIMPLE_FORMS + NOEXEC_FORMS
+                form = pool[((kk * 2654435761) >> 5) % len(pool)]
+            k = emit(form.replace("%d", str(kk)), ind)
             return ('simple', k)
         if c == 'pass':
             return ('pass', emit("pass", ind))
@@ -184,8 +193,16 @@ def layout(module, plain=False, deco_rng=None):
         if c == 'comp':
             parts = []
             for i, nifs in enumerate(s[2]):
-                it = "MI(%d)" % (len(lines) + 1) if i == 0 else "()"
-                parts.append("for _%d in %s" % (i, it) + "".join(" if T" for _ in range(nifs)))
+                kk0 = len(lines) + 1
+                sel = ((kk0 * 40503) >> 3) + i
+                # loop targets (name, tuple, parenthesised tuple, starred, attribute) x iterables (call, bare tuple, method call, nested call):
+                # MI(k) yields no items, so any target form is fine at run time
+                tgt = ["_%d" % i, "_%d, _x%d" % (i, i), "(_%d, _x%d)" % (i, i), "_%d, *_r%d" % (i, i), "[_%d, _x%d]" % (i, i)][sel % 5]
+                if i == 0:
+                    it = ["MI(%d)", "MI(%d)", "list(MI(%d))", "enumerate(MI(%d))", "dict(MI(%d)).items()", "sorted(MI(%d))"][(sel // 5) % 6] % kk0
+                else:
+                    it = ["()", "()", "list(())", "dict().items()", "zip((), ())", "NS.acc[:0]"][(sel // 5) % 6]
+                parts.append("for %s in %s" % (tgt, it) + "".join(" if T" for _ in range(nifs)))
             # assignment, annotated assignment and bare expression statement are separate cases of processStatement (a walrus-wrapped
             # comprehension `(c := [...])` is NOT counted by pyscn: buildExpressionStatement returns the parenthesised node itself, so the
             # NodeExpr/NamedExpr branch of processStatement is unreachable; the property text speaks of statement-level comprehensions only)
